@@ -217,21 +217,34 @@ def shared_rules(fb, ctx, pid, only=None):
 
     # ---- PROVENANCE
     oi = mcalls(ah["body"], r"datalog::origin::Origin::insert$")
-    good = [n for n in oi if is_local(strip(n["recv"]), "origin") and n["args"] and is_local(strip(n["args"][0]), "rule_origin")]
+    p_rule_origin = hirq.param_ids(ah, 2)      # apply(&self, facts, rule_origin, ..): positional
+    good = [n for n in oi if is_local(strip(n["recv"])) and n["args"] and hirq.is_lid(strip(n["args"][0]), p_rule_origin)]
     ctx.check(len(good) == 1, "PROVENANCE", "derived origin includes the rule's block", "PROVENANCE|apply", "Rule::apply must call origin.insert(rule_origin) before emitting the fact", f"{ab['file']}:{ab['line']}")
     # the insert precedes the Some(Ok((origin, Fact{..}))) in the same statement list
     if good:
         blocks = find_all(ah["body"], lambda n: n.get("k") == "block" and any((s.get("e") if s.get("k") == "semi" else s) is good[0] or strip(s.get("e") if s.get("k") == "semi" else s) is good[0] for s in n.get("stmts", [])))
-        emits = blocks and blocks[0].get("expr") and (hirq.ctor_name(strip(blocks[0]["expr"])) or "").endswith("::Some") and find_all(blocks[0]["expr"], lambda n: is_local(n, "origin")) and find_all(blocks[0]["expr"], lambda n: (hirq.ctor_name(n) or "").endswith("datalog::Fact"))
+        emits = blocks and blocks[0].get("expr") and (hirq.ctor_name(strip(blocks[0]["expr"])) or "").endswith("::Some") and find_all(blocks[0]["expr"], lambda n: hirq.is_lid(n, {strip(good[0]["recv"])["res"]["id"]})) and find_all(blocks[0]["expr"], lambda n: (hirq.ctor_name(n) or "").endswith("datalog::Fact"))
         ctx.check(bool(emits), "PROVENANCE", "the fact is emitted with that origin", "PROVENANCE|apply-emit", "origin.insert(rule_origin) is not followed by Some(Ok((origin, Fact{..}))) in the same block", f"{ab['file']}:{good[0]['ln']}")
     nh = fb.hir_of(nb)
     un = mcalls(nh["body"], r"datalog::origin::Origin::union$")
-    ctx.check(any(is_local(strip(u["recv"]), "origin") and is_local(strip(u["args"][0]), "current_origin") for u in un), "PROVENANCE", "join unions the origins of the matched facts", "PROVENANCE|union", "CombineIt::next must return origin.union(current_origin) for multi-predicate bodies", f"{nb['file']}:{nb['line']}")
-    single = [n for n in find_all(nh["body"], lambda n: n.get("k") == "ret") if find_all(n, lambda z: z.get("k") == "mcall" and z.get("name") == "clone" and is_local(strip(z["recv"]), "current_origin"))]
+    # the origin of the fact matched for the first predicate: first binding of `if let Some((o, f)) = self.current_facts.next()`
+    cur = set()
+    for le in find_all(nh["body"], lambda z: z.get("k") == "letexpr" and strip(z["init"]).get("k") == "mcall" and strip(z["init"]).get("name") == "next" and find_all(strip(z["init"])["recv"], lambda y: y.get("k") == "field" and y.get("name") == "current_facts")):
+        bs = find_all(le["pat"], lambda z: z.get("k") == "bind")
+        if len(bs) == 2:
+            cur.add(bs[0]["id"])
+    ctx.check(len(cur) == 1, "PROVENANCE", "CombineIt::next binds (origin, fact) of the matched fact", "PROVENANCE|anchor", "`if let Some((origin, fact)) = self.current_facts.next()` not found", f"{nb['file']}:{nb['line']}")
+    ctx.check(any((is_local(strip(u["recv"])) and hirq.is_lid(strip(u["args"][0]), cur)) or (hirq.is_lid(strip(u["recv"]), cur) and is_local(strip(u["args"][0]))) for u in un), "PROVENANCE", "join unions the origins of the matched facts", "PROVENANCE|union", "CombineIt::next must return origin.union(current_origin) for multi-predicate bodies", f"{nb['file']}:{nb['line']}")
+    single = [n for n in find_all(nh["body"], lambda n: n.get("k") == "ret") if find_all(n, lambda z: z.get("k") == "mcall" and z.get("name") == "clone" and hirq.is_lid(strip(z["recv"]), cur))]
     ctx.check(bool(single), "PROVENANCE", "single predicate returns the fact's own origin", "PROVENANCE|single", "the one-predicate case must return current_origin.clone()", f"{nb['file']}:{nb['line']}")
     # run_with_limits passes the stored rule origin
     ap = mcalls(rh["body"], r"datalog::Rule::apply$")
-    ctx.check(len(ap) == 1 and len(ap[0]["args"]) >= 2 and is_local(strip(ap[0]["args"][1]), "origin"), "PROVENANCE", "rules are applied with their own block id", "PROVENANCE|run", "World::run_with_limits must pass the (origin, rule) pair's origin to Rule::apply", f"{rb['file']}:{rb['line']}")
+    pair_ok = False
+    if len(ap) == 1 and len(ap[0]["args"]) >= 2 and is_local(strip(ap[0]["recv"])) and is_local(strip(ap[0]["args"][1])):
+        r_id, o_id = strip(ap[0]["recv"])["res"]["id"], strip(ap[0]["args"][1])["res"]["id"]
+        for t in find_all(rh["body"], lambda z: z.get("k") == "tuple" and len(z.get("pats", [])) == 2 and all(q.get("k") == "bind" for q in z["pats"])):
+            pair_ok = pair_ok or (t["pats"][0]["id"] == o_id and t["pats"][1]["id"] == r_id)
+    ctx.check(pair_ok, "PROVENANCE", "rules are applied with their own block id", "PROVENANCE|run", "World::run_with_limits must pass the (origin, rule) pair's origin to Rule::apply", f"{rb['file']}:{rb['line']}")
 
 
     # ---- STORE: the fact store keeps every (origin, fact) pair it is given
